@@ -312,6 +312,7 @@ bool build_artefact(const Plan &plan, Bytes &file, Bytes &plain, XzInfo &info, s
 			info.fields.push_back({ before, file.size() - before, "stream_unsized" });
 			++info.n_streams;
 			info.n_blocks += bs2.size();
+			for (size_t b : bs2) info.block_plain_sizes.push_back(b);
 		}
 		plain.insert(plain.end(), in.begin(), in.end());
 		size_t pad = (size_t)plan.p(p + "pad", 0) & ~(size_t)3;
